@@ -385,6 +385,73 @@ theorem nobreaking_directives (o n : SchemaD) (h : diffSchema o n 2 = []) (d : D
         rw [hr] at this
         exact (absurd_of_breaking h this (sev_ge_req _ _ (by decide))).elim
 
+/-! ### no element BECOMES required (repair G3: removing the default of a non-null argument was only DANGEROUS) -/
+
+/-- a safe input type change never ADDS a non-null wrapper -/
+private theorem nonNull_of_safeIn (a b : Ty) (hs : safeIn a b = true) (hb : b.isNonNull = true) : a.isNonNull = true := by
+  rw [safeIn_eq_sub] at hs
+  cases a with
+  | nonNull _ => simp [Ty.isNonNull]
+  | named x => cases b <;> simp_all [sub, Ty.isNonNull]
+  | list x => cases b <;> simp_all [sub, Ty.isNonNull]
+
+/-- under a safe type change an element can only become required by losing its default value -/
+private theorem becameRequired_defaultChanged (a b : ArgD) (h : becameRequired a b = true)
+    (hs : safeIn a.type b.type = true) : defaultChanged a b = true := by
+  unfold becameRequired ArgD.required at h
+  simp only [Bool.and_eq_true, Bool.not_eq_true'] at h
+  have hbn := h.1.1
+  have han := nonNull_of_safeIn a.type b.type hs hbn
+  unfold defaultChanged
+  cases ha : a.hasDefault <;> cases hb : b.hasDefault <;> simp_all
+
+/-- **No argument becomes required**: with no BREAKING change, an argument of a kept field that operations could
+    omit (nullable, or with a default) can still be omitted. -/
+theorem nobreaking_no_argument_becomes_required (o n : SchemaD) (h : diffSchema o n 2 = []) (ot nt : TypeD)
+    (hp : FieldHost o n ot nt) (f g : FieldD) (hf : f ∈ ot.fields) (hg : nt.fields.find? (·.name == f.name) = some g)
+    (a b : ArgD) (ha : a ∈ f.args) (hb : g.args.find? (·.name == a.name) = some b) :
+    becameRequired a b = false := by
+  cases hr : becameRequired a b with
+  | false => rfl
+  | true =>
+    exfalso
+    cases hs : safeIn a.type b.type with
+    | false => exact absurd_of_breaking h (retyped_argument_reported o n ot nt f g a b hp hf hg ha hb hs) (sev_ge _ _ (by decide))
+    | true =>
+      have := argument_default_change_reported o n ot nt f g a b hp hf hg ha hb hs (becameRequired_defaultChanged a b hr hs)
+      rw [hr] at this
+      exact absurd_of_breaking h this (sev_ge_req _ _ (by decide))
+
+/-- same for input fields -/
+theorem nobreaking_no_input_field_becomes_required (o n : SchemaD) (h : diffSchema o n 2 = []) (ot nt : TypeD)
+    (hp : (ot, nt) ∈ matchingPairs o n .input) (f g : ArgD) (hf : f ∈ ot.inputFields)
+    (hg : nt.inputFields.find? (·.name == f.name) = some g) : becameRequired f g = false := by
+  cases hr : becameRequired f g with
+  | false => rfl
+  | true =>
+    exfalso
+    cases hs : safeIn f.type g.type with
+    | false => exact absurd_of_breaking h (retyped_input_field_reported o n ot nt f g hp hf hg hs) (sev_ge _ _ (by decide))
+    | true =>
+      have := input_field_default_change_reported o n ot nt f g hp hf hg hs (becameRequired_defaultChanged f g hr hs)
+      rw [hr] at this
+      exact absurd_of_breaking h this (sev_ge_req _ _ (by decide))
+
+/-- same for directive arguments -/
+theorem nobreaking_no_directive_argument_becomes_required (o n : SchemaD) (h : diffSchema o n 2 = []) (d e : DirectiveD)
+    (hd : d ∈ o.directives) (he : n.directives.find? (·.name == d.name) = some e) (a b : ArgD) (ha : a ∈ d.args)
+    (hb : e.args.find? (·.name == a.name) = some b) : becameRequired a b = false := by
+  cases hr : becameRequired a b with
+  | false => rfl
+  | true =>
+    exfalso
+    cases hs : safeIn a.type b.type with
+    | false => exact absurd_of_breaking h (retyped_directive_argument_reported o n d e a b hd he ha hb hs) (sev_ge _ _ (by decide))
+    | true =>
+      have := directive_argument_default_change_reported o n d e a b hd he ha hb hs (becameRequired_defaultChanged a b hr hs)
+      rw [hr] at this
+      exact absurd_of_breaking h this (sev_ge_req _ _ (by decide))
+
 /-! ### non-vacuity: a concrete compatible evolution and a document that uses fragments and abstract types -/
 
 private def exOld : SchemaD :=
